@@ -139,6 +139,9 @@ var templates = []template{
 	{name: "host-as-map-callback", loop: true, render: func(es []string) string {
 		return fmt.Sprintf("(dotimes (i %d) %s (map 'list snap1 '(0)))", len(es), first(es))
 	}},
+	{name: "after-nested-empty-loads", render: func(es []string) string {
+		return "(load-string \"\") (funcall (lambda () (load-bytes (to-bytes \"; nothing\")) 1)) " + body(es)
+	}},
 	{name: "tail-loop", loop: true, render: func(es []string) string {
 		return fmt.Sprintf("(labels ([lp (i) (if (>= i %d) 'done (progn %s (snap) (lp (+ i 1))))]) (lp 0))", len(es), first(es))
 	}},
@@ -277,6 +280,19 @@ func (g *rig) invariants(pkgBefore string, wantPkgRestored bool) string {
 	}
 	if g.env.Context() != context.Background() {
 		bad = append(bad, "evaluation context not restored")
+	}
+	// entry-point depth balanced: two trivial top-level evaluations in a row must count the same number of steps
+	// (a depth left raised means the step counter is never reset again: the second count is the sum)
+	if len(bad) == 0 {
+		lisp.WithMaxSteps(1 << 40)(g.env.LEnv)
+		g.env.LoadString("inv", "1")
+		s1 := rt.Steps()
+		g.env.LoadString("inv", "1")
+		s2 := rt.Steps()
+		lisp.WithMaxSteps(0)(g.env.LEnv)
+		if s1 != s2 {
+			bad = append(bad, fmt.Sprintf("entry depth not balanced: two trivial evaluations count %d then %d steps", s1, s2))
+		}
 	}
 	return strings.Join(bad, "; ")
 }
@@ -524,6 +540,8 @@ func invClass(s string) string {
 		return "package"
 	case strings.Contains(s, "context"):
 		return "context"
+	case strings.Contains(s, "entry depth"):
+		return "entry-depth"
 	}
 	return "other"
 }
@@ -653,7 +671,7 @@ func run(r *core.Run) {
 	r.Bound("templates", len(templates))
 	r.Bound("effects_per_operation", seqLen)
 	r.Bound("history_depth", depth)
-	r.Rule("explicit-state BFS over histories of top-level operations on one runtime. Operation = entry point x program template (17: top level, lambda call, the host builtin reached through funcall / apply / as a map callback, a multi-form function defined in another package calling thunks (also swallowed and followed by more effects), let/labels, handler-bind body, inside a handler, ignore-errors, nested load-string with in-package, macro expansion time, tail loop, dotimes, map callback, foldl callback) x effect sequence over 7 effect kinds (set, set!, defun, assoc!, append!, export, use-package) x fault. " +
+	r.Rule("explicit-state BFS over histories of top-level operations on one runtime. Operation = entry point x program template (18: after nested loads of empty sources, top level, lambda call, the host builtin reached through funcall / apply / as a map callback, a multi-form function defined in another package calling thunks (also swallowed and followed by more effects), let/labels, handler-bind body, inside a handler, ignore-errors, nested load-string with in-package, macro expansion time, tail loop, dotimes, map callback, foldl callback) x effect sequence over 7 effect kinds (set, set!, defun, assoc!, append!, export, use-package) x fault. " +
 		"Depth 1: the COMPLETE fault space of every operation (no fault; ordinary host error and host panic at every host-call index; step budget at every n in 1..N; cancellation at every k in 1..N; physical height limit at every h in 1..H+1). " +
 		"Depth 2: from every distinct state reached (canonical state = list of cleanly completed effects + template and fault kind of the last operation) a second operation from a reduced alphabet under every entry point with boundary faults. A state/transition is non-trivial when the operation was faulted; distinct by (history, operation)")
 	r.Assume("an effect is confirmed when the host builtin (snap) that follows it returned normally; a failed run must be equivalent to the state after c or c+1 effects (the effect completed but its snap did not)")
